@@ -1,6 +1,6 @@
 // ---- RawConnector as a cost model (C07): cost(r, l) = sum over template positions of the stored pair cost ----
 pub proof fn lemma_row_range(id: int, w: int, n: int)
-    requires 0 <= id < n, 1 <= w, n <= 0x10000, w * n <= usize::MAX,
+    requires 0 <= id < n, 1 <= w, n <= 0x10000, n * w <= usize::MAX,
     ensures 0 <= id * w, (id + 1) * w <= n * w, id * w <= (id + 1) * w, (id + 1) * w == id * w + w,
 {
     assert((id + 1) * w <= n * w) by (nonlinear_arith) requires id + 1 <= n, 1 <= w;
@@ -15,9 +15,11 @@ pub proof fn lemma_div_exact(n: int, w: int)
     assert((n * w) / w == n) by (nonlinear_arith) requires 1 <= w, 0 <= n;
 }
 
+pub uninterp spec fn scorer_cost_m(s: Scorer) -> int;
+
 impl RawConnector {
-    /// magnitude bound on the scorer's costs chosen by conn_wf
-    pub uninterp spec fn cost_m(&self) -> int;
+    /// magnitude bound on the scorer's costs chosen by conn_wf (a function of the scorer only: moving rows does not change it)
+    pub open spec fn cost_m(&self) -> int { scorer_cost_m(self.scorer) }
 
     pub open spec fn spec_right_row(&self, id: int) -> Seq<U31x8> {
         self.right_feat_ids@.subrange(id * self.feat_template_size as int, (id + 1) * self.feat_template_size as int)
@@ -56,4 +58,25 @@ impl CostModel for RawConnector {
             lemma_rows_sum_bound(&self.scorer, self.spec_right_row(r as int), self.spec_left_row(l as int), w, m);
         }
     }
+}
+
+// ---- R18 for RawConnector::map_connection_ids: `dst[d0..d0+w].copy_from_slice(&src[s0..s0+w])` (ASSUMED: what copy_from_slice does) ----
+#[verifier::external_body]
+pub fn copy_row(dst: &mut Vec<U31x8>, d0: usize, src: &Vec<U31x8>, s0: usize, w: usize)
+    requires d0 + w <= old(dst).len(), s0 + w <= src.len(),
+    ensures final(dst).len() == old(dst).len(),
+        forall|j: int| 0 <= j < w ==> #[trigger] final(dst)[d0 + j] == src[s0 + j],
+        forall|k: int| 0 <= k < old(dst).len() && !(d0 <= k < d0 + w) ==> #[trigger] final(dst)[k] == old(dst)[k],
+{ unimplemented!() }
+/// `vec![U31x8::default(); n]` (ASSUMED: n elements; their value does not matter, every row is overwritten)
+#[verifier::external_body]
+pub fn vec_of_default_rows(n: usize) -> (r: Vec<U31x8>) ensures r.len() == n { unimplemented!() }
+
+/// rows of different ids do not overlap
+pub proof fn lemma_rows_disjoint(a: int, b: int, w: int)
+    requires 0 <= a, 0 <= b, a != b, 1 <= w,
+    ensures (a + 1) * w <= b * w || (b + 1) * w <= a * w,
+{
+    if a < b { assert((a + 1) * w <= b * w) by (nonlinear_arith) requires a + 1 <= b, 1 <= w; }
+    else { assert((b + 1) * w <= a * w) by (nonlinear_arith) requires b + 1 <= a, 1 <= w; }
 }
